@@ -1246,6 +1246,23 @@ def suffix_transfer(I, fr, h, body, H, backs):
         ok = same or moved
         I.ob('SUFFIX-STEP', fr, fr.inst.loc, label, ok,
              '' if ok else f"back edge with candidate_start' - candidate_start = {s.nf(csB.e - csH.e)}, offset' = {s.nf(ofB.e)}, offset = {s.nf(ofH.e)}")
+        # linear work of the preprocessing: the potential  2*pos + candidate_start + offset  (mirrored in reverse)
+        # strictly increases in every iteration and is bounded by 3 * needle.len()
+        sfx = names.get('suffix')
+        pH = hl.get(sfx) if sfx is not None else None
+        pB = bl.get(sfx) if sfx is not None else None
+        try:
+            posH, posB = pH.fields[0].e, pB.fields[0].e
+        except (AttributeError, IndexError, TypeError):
+            I.ob('SUFFIX-RANK', fr, fr.inst.loc, 'suffix scan: the running suffix position is tracked', False, '')
+            continue
+        if fwd:
+            d = (posB * 2 + csB.e + ofB.e) - (posH * 2 + csH.e + ofH.e)
+        else:
+            d = (-posB * 2 - csB.e + ofB.e) - (-posH * 2 - csH.e + ofH.e)
+        okr = s.entails_le(C(1) - d)
+        I.ob('SUFFIX-RANK', fr, fr.inst.loc, 'suffix scan: the potential 2*pos + candidate_start + offset (mirrored in reverse) strictly increases per iteration', okr,
+             '' if okr else f"potential changes by {s.nf(d)} on a back edge")
 
 
 def loop_transfer(I, fr, h, body, H, backs):
